@@ -55,7 +55,8 @@ static bool deadline_hit(void)
 {
     if (g_capped)
         return true;
-    if ((g_cases & 255) == 0 && v_now() - g_t0 > g_deadline)
+    static unsigned calls;
+    if ((++calls & 63) == 0 && v_now() - g_t0 > g_deadline)
         g_capped = true;
     return g_capped;
 }
